@@ -529,3 +529,39 @@ func AccessPathType(v ssa.Value) string {
 	}
 	return p
 }
+
+// CallbackBody resolves a function value handed to an option such as resource.InterceptAfter to the function
+// whose body does the work, together with its last two parameters (old, new): a function literal, a method value
+// (`m.stampStartTime`: go/ssa wraps it in a synthetic bound-method closure), or a plain function.
+func CallbackBody(v ssa.Value) (fn *ssa.Function, old, new *ssa.Parameter) {
+	var f *ssa.Function
+	switch x := v.(type) {
+	case *ssa.MakeClosure:
+		f, _ = x.Fn.(*ssa.Function)
+	case *ssa.Function:
+		f = x
+	case *ssa.ChangeType:
+		return CallbackBody(x.X)
+	}
+	if f == nil {
+		return nil, nil, nil
+	}
+	if strings.HasPrefix(f.Synthetic, "bound method wrapper") {
+		// the wrapper's only call is the method itself
+		var target *ssa.Function
+		Instrs(f, func(in ssa.Instruction) {
+			if call, ok := in.(ssa.CallInstruction); ok {
+				if t := call.Common().StaticCallee(); t != nil {
+					target = t
+				}
+			}
+		})
+		if target != nil {
+			f = target
+		}
+	}
+	if n := len(f.Params); n >= 2 {
+		return f, f.Params[n-2], f.Params[n-1]
+	}
+	return f, nil, nil
+}
